@@ -94,21 +94,35 @@ func translate(phstr string) string {
 	return b.String()
 }
 
+func toValue(v interface{}) data.Value {
+	switch v := v.(type) {
+	case float64: // after a JSON round trip (child processes) every number is a float64
+		if v == float64(int64(v)) {
+			return data.Int(int64(v))
+		}
+		return data.Float(v)
+	case int:
+		return data.Int(v)
+	case map[string]interface{}:
+		m := data.Map{}
+		for k, x := range v {
+			m[k] = toValue(x)
+		}
+		return m
+	case []interface{}:
+		l := data.List{}
+		for _, x := range v {
+			l = append(l, toValue(x))
+		}
+		return l
+	}
+	return data.New(v)
+}
+
 func toGlobals(g map[string]interface{}) data.Map {
 	m := data.Map{}
 	for k, v := range g {
-		switch v := v.(type) {
-		case float64:
-			if v == float64(int64(v)) {
-				m[k] = data.Int(int64(v))
-			} else {
-				m[k] = data.Float(v)
-			}
-		case int:
-			m[k] = data.Int(v)
-		default:
-			m[k] = data.New(v)
-		}
+		m[k] = toValue(v)
 	}
 	return m
 }
@@ -265,7 +279,13 @@ func Observe(c *Case, order []int, cat *catalogue) Obs {
 	o["render+cat"] = render(true)
 
 	files := append([]*ast.SoyFileNode(nil), reg.SoyFiles...)
-	sort.SliceStable(files, func(i, j int) bool { return files[i].Name < files[j].Name })
+	// by name, then by text: several files may share one name
+	sort.SliceStable(files, func(i, j int) bool {
+		if files[i].Name != files[j].Name {
+			return files[i].Name < files[j].Name
+		}
+		return files[i].Text < files[j].Text
+	})
 	gen := func(f soyjs.JSFormatter, withCat bool) string {
 		var b strings.Builder
 		for _, sf := range files {
